@@ -16,6 +16,10 @@ use crate::schedx::{CaseInfo, Judgement};
 
 #[derive(Clone, Debug)]
 pub struct Case {
+    /// the length query this opener makes under the lock fails (EIO): its open must report the error
+    pub stat_fault: Option<usize>,
+    /// this opener, once inside, makes a commit that grows the file before its ordinary one
+    pub grow_plain: Option<usize>,
     /// this opener, once inside, first runs a commit whose first sync fails (EIO) and then one that
     /// has to grow (and map again) the file, before its ordinary commit
     pub sync_fault_grow: Option<usize>,
@@ -35,22 +39,28 @@ pub struct Case {
 pub fn cases(tier: Tier) -> Vec<Case> {
     let q = tier == Tier::Quick;
     vec![
-        Case { sync_fault_grow: None, second_fd: false, procs: false, init_fault: None, eintr: false, openers: 2, file_exists: true, bound: if q { 6 } else { 12 } },
-        Case { sync_fault_grow: None, second_fd: false, procs: false, init_fault: None, eintr: false, openers: 2, file_exists: false, bound: if q { 4 } else { 8 } },
-        Case { sync_fault_grow: None, second_fd: false, procs: false, init_fault: None, eintr: false, openers: 3, file_exists: true, bound: if q { 2 } else { 3 } },
-        Case { sync_fault_grow: None, second_fd: false, procs: false, init_fault: None, eintr: false, openers: 3, file_exists: false, bound: if q { 2 } else { 3 } },
-        Case { sync_fault_grow: None, second_fd: false, procs: false, init_fault: None, eintr: true, openers: 2, file_exists: true, bound: if q { 3 } else { 6 } },
-        Case { sync_fault_grow: None, second_fd: false, procs: false, init_fault: None, eintr: true, openers: 3, file_exists: false, bound: if q { 1 } else { 2 } },
-        Case { sync_fault_grow: None, second_fd: false, procs: false, init_fault: Some(0), eintr: false, openers: 3, file_exists: false, bound: if q { 2 } else { 3 } },
-        Case { sync_fault_grow: None, second_fd: false, procs: false, init_fault: Some(1), eintr: false, openers: 3, file_exists: false, bound: if q { 1 } else { 2 } },
-        Case { sync_fault_grow: Some(0), second_fd: false, procs: false, init_fault: None, eintr: false, openers: 2, file_exists: true, bound: if q { 2 } else { 4 } },
-        Case { sync_fault_grow: Some(0), second_fd: false, procs: true, init_fault: None, eintr: false, openers: 2, file_exists: true, bound: if q { 3 } else { 6 } },
+        Case { stat_fault: None, grow_plain: None, sync_fault_grow: None, second_fd: false, procs: false, init_fault: None, eintr: false, openers: 2, file_exists: true, bound: if q { 6 } else { 12 } },
+        Case { stat_fault: None, grow_plain: None, sync_fault_grow: None, second_fd: false, procs: false, init_fault: None, eintr: false, openers: 2, file_exists: false, bound: if q { 4 } else { 8 } },
+        Case { stat_fault: None, grow_plain: None, sync_fault_grow: None, second_fd: false, procs: false, init_fault: None, eintr: false, openers: 3, file_exists: true, bound: if q { 2 } else { 3 } },
+        Case { stat_fault: None, grow_plain: None, sync_fault_grow: None, second_fd: false, procs: false, init_fault: None, eintr: false, openers: 3, file_exists: false, bound: if q { 2 } else { 3 } },
+        Case { stat_fault: None, grow_plain: None, sync_fault_grow: None, second_fd: false, procs: false, init_fault: None, eintr: true, openers: 2, file_exists: true, bound: if q { 3 } else { 6 } },
+        Case { stat_fault: None, grow_plain: None, sync_fault_grow: None, second_fd: false, procs: false, init_fault: None, eintr: true, openers: 3, file_exists: false, bound: if q { 1 } else { 2 } },
+        Case { stat_fault: None, grow_plain: None, sync_fault_grow: None, second_fd: false, procs: false, init_fault: Some(0), eintr: false, openers: 3, file_exists: false, bound: if q { 2 } else { 3 } },
+        Case { stat_fault: None, grow_plain: None, sync_fault_grow: None, second_fd: false, procs: false, init_fault: Some(1), eintr: false, openers: 3, file_exists: false, bound: if q { 1 } else { 2 } },
+        Case { stat_fault: None, grow_plain: None, sync_fault_grow: Some(0), second_fd: false, procs: false, init_fault: None, eintr: false, openers: 2, file_exists: true, bound: if q { 2 } else { 4 } },
+        Case { stat_fault: None, grow_plain: None, sync_fault_grow: Some(0), second_fd: false, procs: true, init_fault: None, eintr: false, openers: 2, file_exists: true, bound: if q { 3 } else { 6 } },
+        // the holder grows the file while the others wait (every second opener maps with populate)
+        Case { stat_fault: None, grow_plain: Some(0), sync_fault_grow: None, second_fd: false, procs: false, init_fault: None, eintr: false, openers: 2, file_exists: true, bound: if q { 2 } else { 4 } },
+        Case { stat_fault: None, grow_plain: Some(0), sync_fault_grow: None, second_fd: false, procs: true, init_fault: None, eintr: false, openers: 2, file_exists: true, bound: if q { 3 } else { 6 } },
+        // the waiting opener's length query fails
+        Case { stat_fault: Some(1), grow_plain: None, sync_fault_grow: None, second_fd: false, procs: false, init_fault: None, eintr: false, openers: 2, file_exists: true, bound: if q { 2 } else { 4 } },
+        Case { stat_fault: Some(1), grow_plain: None, sync_fault_grow: None, second_fd: false, procs: true, init_fault: None, eintr: false, openers: 2, file_exists: true, bound: if q { 3 } else { 6 } },
         // the same bodies as real processes under the kernel's own flock
-        Case { sync_fault_grow: None, second_fd: false, procs: true, init_fault: None, eintr: false, openers: 2, file_exists: true, bound: if q { 4 } else { 12 } },
-        Case { sync_fault_grow: None, second_fd: false, procs: true, init_fault: None, eintr: false, openers: 2, file_exists: false, bound: if q { 4 } else { 8 } },
-        Case { sync_fault_grow: None, second_fd: false, procs: true, init_fault: None, eintr: false, openers: 3, file_exists: false, bound: if q { 2 } else { 3 } },
-        Case { sync_fault_grow: None, second_fd: true, procs: true, init_fault: None, eintr: false, openers: 2, file_exists: true, bound: if q { 3 } else { 6 } },
-        Case { sync_fault_grow: None, second_fd: false, procs: true, init_fault: Some(0), eintr: false, openers: 3, file_exists: false, bound: if q { 1 } else { 2 } },
+        Case { stat_fault: None, grow_plain: None, sync_fault_grow: None, second_fd: false, procs: true, init_fault: None, eintr: false, openers: 2, file_exists: true, bound: if q { 4 } else { 12 } },
+        Case { stat_fault: None, grow_plain: None, sync_fault_grow: None, second_fd: false, procs: true, init_fault: None, eintr: false, openers: 2, file_exists: false, bound: if q { 4 } else { 8 } },
+        Case { stat_fault: None, grow_plain: None, sync_fault_grow: None, second_fd: false, procs: true, init_fault: None, eintr: false, openers: 3, file_exists: false, bound: if q { 2 } else { 3 } },
+        Case { stat_fault: None, grow_plain: None, sync_fault_grow: None, second_fd: true, procs: true, init_fault: None, eintr: false, openers: 2, file_exists: true, bound: if q { 3 } else { 6 } },
+        Case { stat_fault: None, grow_plain: None, sync_fault_grow: None, second_fd: false, procs: true, init_fault: Some(0), eintr: false, openers: 3, file_exists: false, bound: if q { 1 } else { 2 } },
     ]
 }
 
@@ -58,7 +68,7 @@ pub fn case_infos(tier: Tier) -> Vec<CaseInfo> {
     cases(tier)
         .iter()
         .map(|c| CaseInfo {
-            label: format!("{}{}openers-{}{}-c{}", if c.procs { "processes-" } else { "" }, c.openers, if c.file_exists { "existing" } else { "absent" }, if c.sync_fault_grow.is_some() { "-syncfail-then-growth" } else if c.second_fd { "-second-descriptor" } else if c.eintr { "-one-EINTR" } else if let Some(i) = c.init_fault { if i == 0 { "-initfail0" } else { "-initfail1" } } else { "" }, c.bound),
+            label: format!("{}{}openers-{}{}-c{}", if c.procs { "processes-" } else { "" }, c.openers, if c.file_exists { "existing" } else { "absent" }, if c.grow_plain.is_some() { "-holder-grows-file" } else if c.stat_fault.is_some() { "-lengthqueryfail" } else if c.sync_fault_grow.is_some() { "-syncfail-then-growth" } else if c.second_fd { "-second-descriptor" } else if c.eintr { "-one-EINTR" } else if let Some(i) = c.init_fault { if i == 0 { "-initfail0" } else { "-initfail1" } } else { "" }, c.bound),
             describe: json!({"openers_are": if c.procs { "child processes released one system call at a time; flock answered by the kernel" } else { "threads; flock modelled by the scheduler" }, "openers": c.openers, "file": if c.file_exists { "exists (empty database, closed)" } else { "does not exist yet" }, "opener_body": "open(path); inside += 1; commit own marker; read all markers; yield; inside -= 1; close", "preemption_bound": c.bound}),
         })
         .collect()
@@ -97,7 +107,7 @@ fn markers(tx: &jammdb::Tx, n: usize) -> Result<Vec<usize>, String> {
 
 pub fn run_one(case: &Case, path: &str, prefix: &[u8], policy: RwPolicy) -> (ExecResult, Vec<Judgement>, String) {
     if case.procs {
-        let pc = crate::c13p::PCase { openers: case.openers, file_exists: case.file_exists, init_fault: case.init_fault, second_fd: case.second_fd, sync_fault_grow: case.sync_fault_grow };
+        let pc = crate::c13p::PCase { openers: case.openers, file_exists: case.file_exists, init_fault: case.init_fault, second_fd: case.second_fd, sync_fault_grow: case.sync_fault_grow, stat_fault: case.stat_fault, grow_plain: case.grow_plain };
         return crate::c13p::run_one(&pc, path, prefix);
     }
     let _ = std::fs::remove_file(path);
@@ -116,9 +126,11 @@ pub fn run_one(case: &Case, path: &str, prefix: &[u8], policy: RwPolicy) -> (Exe
         let inside = inside.clone();
         let obs = obs.clone();
         // every opener asks for a different initial size (only the creator's may matter)
-        let cfg = Cfg { num_pages: 16 * (i + 1), ..cfg.clone() };
+        let cfg = Cfg { num_pages: 16 * (i + 1), populate: i % 2 == 1, ..cfg.clone() };
         let path = path.to_string();
-        let init_fault = case.init_fault == Some(i);
+        let init_fault = case.init_fault == Some(i) || case.stat_fault == Some(i);
+        let stat_fault = case.stat_fault == Some(i);
+        let grow_plain = case.grow_plain == Some(i);
         let sync_fault_grow = case.sync_fault_grow == Some(i);
         bodies.push(Box::new(move |ctx: &Ctx| {
             if init_fault {
@@ -127,7 +139,7 @@ pub fn run_one(case: &Case, path: &str, prefix: &[u8], policy: RwPolicy) -> (Exe
                     p.calls = 0;
                     p.call_kinds.clear();
                     p.fault_fired = false;
-                    p.fault = Some(crate::iosim::Fault::nth(crate::iosim::Kind::Fallocate, 0, libc::ENOSPC));
+                    p.fault = Some(if stat_fault { crate::iosim::Fault::nth(crate::iosim::Kind::Stat, 0, libc::EIO) } else { crate::iosim::Fault::nth(crate::iosim::Kind::Fallocate, 0, libc::ENOSPC) });
                 });
             }
             let opened = real::guarded(|| cfg.open(&path));
@@ -173,6 +185,11 @@ pub fn run_one(case: &Case, path: &str, prefix: &[u8], policy: RwPolicy) -> (Exe
                 let mut o = obs.lock().unwrap();
                 o.max_inside = o.max_inside.max(now);
                 o.order.push(i);
+            }
+            if grow_plain {
+                if let Err(e) = crate::c13p::growth_commit(&db) {
+                    obs.lock().unwrap().errors.push((i, e));
+                }
             }
             if sync_fault_grow {
                 if let Err(e) = crate::c13p::sync_fault_then_growth(&db) {
@@ -241,7 +258,7 @@ pub fn run_one(case: &Case, path: &str, prefix: &[u8], policy: RwPolicy) -> (Exe
     let interrupted = o.interrupted.clone();
     if !interrupted.is_empty() {
         outcome.push_str(&format!("eintr{:?};", interrupted));
-        if !case.eintr && case.init_fault.is_none() {
+        if !case.eintr && case.init_fault.is_none() && case.stat_fault.is_none() {
             js.push(Judgement { class: "open_failed".into(), detail: format!("openers {:?} got Interrupted although no signal was injected", interrupted) });
         }
     }
